@@ -194,7 +194,7 @@ def accessor_facts(kind, seed, tid0, nrep):
         if kind == "Cox":
             dd = {"kind": "Cox", "use_efron": False}
         if kind in ("QuadraticGroup", "LogisticGroup"):
-            ptr, idx = gen.groups_contiguous(p, [1] + [p - 1] if p > 1 else [1])
+            ptr, idx = gen.groups_random(rng, p, 3, permuted=(rep % 2 == 1))
             dd.update(grp_ptr=ptr, grp_indices=idx)
         if kind == "Pinball":
             dd["quantile_level"] = 0.3
@@ -243,7 +243,7 @@ def accessor_facts(kind, seed, tid0, nrep):
                 close("grad_eq", [df.gradient_j(X, y, w, z, j) for j in range(p)], gfull)
             if hasattr(df, "gradient_g"):
                 gg = np.concatenate([df.gradient_g(X, y, w, z, g) for g in range(len(dd["grp_ptr"]) - 1)])
-                close("grad_eq", gg, gfull)
+                close("grad_eq", gg, gfull[np.array(dd["grp_indices"])])
             # CSC accessors: same numbers as the dense ones
             try:
                 if hasattr(df, "initialize_sparse"):
@@ -263,7 +263,7 @@ def accessor_facts(kind, seed, tid0, nrep):
                 if hasattr(df, "gradient_g_sparse"):
                     gg = np.concatenate([df.gradient_g_sparse(*bund, y, w, z, g)
                                          for g in range(len(dd["grp_ptr"]) - 1)])
-                    close("sparse_eq", gg, gfull)
+                    close("sparse_eq", gg, gfull[np.array(dd["grp_indices"])])
             except Exception as e:  # noqa: BLE001
                 f.meta["sparse_exc"] = type(e).__name__ + ": " + str(e)[:100]
                 f.flag("sparse_eq", False)
@@ -303,6 +303,8 @@ def lipschitz_facts(kind, seed, tid0, nrep):
             X[:, 1] = X[:, 0]                   # rank deficient
         if rep % 5 == 2:
             X = X * np.array([1e3] + [1.0] * (p - 1))
+        if rep % 5 == 3:
+            X = np.asfortranarray(X - X.mean(axis=0))      # every column sums to zero (contrast coding)
         dd = {"kind": kind}
         sw = None
         if kind in ("Logistic", "LogisticGroup", "QuadraticSVC"):
@@ -326,13 +328,7 @@ def lipschitz_facts(kind, seed, tid0, nrep):
             dd["delta"] = 0.75
         grs = None
         if kind in ("QuadraticGroup", "LogisticGroup"):
-            sizes = []
-            left = p
-            while left:
-                k = int(min(left, rng.integers(1, 4)))
-                sizes.append(k)
-                left -= k
-            ptr, idx = gen.groups_contiguous(p, sizes)
+            ptr, idx = gen.groups_random(rng, p, 3, permuted=(rep % 2 == 1))
             dd.update(grp_ptr=ptr, grp_indices=idx)
             grs = [idx[ptr[g]:ptr[g + 1]] for g in range(len(ptr) - 1)]
         Xo = X
